@@ -126,15 +126,16 @@ def get_type_graph(t: type) -> graphlib.TopologicalSorter[TypeNode]:
 
         predecessors = []
         for var, child in _level(parent_unwrapped):
-            # If no type was provided, there's no reason to do further processing.
-            if child in (constants.empty, typing.Any):
-                continue
             # String annotations taken from a signature arrive as references: they are
             #   members like any other, not cycles.
             #   (A builtin generic keeps its string arguments as they are: `list["Node"]`.)
             if isinstance(child, (str, refs.ForwardRef)):
                 ref = refs.forwardref(child) if isinstance(child, str) else child
                 child = refs.evaluate(ref)
+            # If no type was provided, there's no reason to do further processing.
+            #   (Asked after the evaluation: a reference may well name `Any`.)
+            if child in (constants.empty, typing.Any):
+                continue
 
             unwrapped = inspection.unwrap(child)
             # Only subscripted generics or non-stdlib types can be cyclic.
